@@ -73,6 +73,22 @@ CHECKS = {
         "generator validity rules are read from class declarations (cross-checked against Aggregate.spec); one open known finding is excluded by construction (unclosed SGML, empty aggregate followed by a sibling)",
         "property-based testing: Hypothesis structured generation over all classes; round-trip oracle with structural comparator",
     ),
+    "C03": (
+        "exploration",
+        "Every concrete class gets Hypothesis-generated valid documents whose element texts are drawn from each type's lexical space and "
+        "rendered by the generator's own renderer (XML / SGML with omitted end tags, varied gaps); an independent implementation of the "
+        "type rules gives the expected (path, list position, native type, value) set, compared with the converted model in both directions.",
+        "trusts reftypes (integer date arithmetic, decimal/entity rules); lenient lexical forms outside the documented space are not generated",
+        "property-based testing: Hypothesis structured generation over all classes; differential oracle against an independent implementation of the OFX type rules",
+    ),
+    "C04": (
+        "exploration",
+        "All declared constraints of all classes enumerated as obligations (required, groups over all bases, token sets, lengths, digits, "
+        "order, duplicates, member types, undeclared keywords, custom constraints) and violated / met exactly at the limit on both "
+        "construction routes; plus randomly mutated valid trees whose accepted results are checked by an independent validator.",
+        "constraints are read from class declarations and a hand-written table of the 18 custom validate_args rules; warn-only strings excluded",
+        "property-based testing: exhaustive enumeration of declared constraints x routes + Hypothesis-mutated trees against an independent validator",
+    ),
 }
 
 PENDING_REASON = "check not built yet in this round (planned in DESIGN.md §3); not claimed until its machinery exists and is quiet on the unchanged tree"
